@@ -155,6 +155,40 @@ def stepHist (w : World) (ws : List String) : Option (World × String) :=
     -- `Clone::clone` of a token appends a prime to its payload (so clones are visible)
     let (w', s) := inplace w r (fun m => m.overwrite (w.cloneFn) src)
     pure (w', s ++ " | " ++ stStr src)
+  | ["clear", r] => do
+    let r ← r.toNat?
+    let (w', s) := inplace w r (fun m => .ok { m with shape := ⟨0, 0⟩, data := #[] })
+    pure (w', s)
+  | ["shrink", r, _] => do
+    let r ← r.toNat?
+    pure (w, "ok | " ++ w.regStr r)
+  | ["apply", r] => do
+    let r ← r.toNat?
+    pure (inplace w r (fun m => .ok { m with data := (m.data.toList.map fun x => "f(" ++ x ++ ")").toArray }))
+  | ["map", dst, r] => do
+    let dst ← dst.toNat?; let r ← r.toNat?
+    let m ← w.get r
+    let w1 := w.set r none
+    match m.map w.es (fun x => "g(" ++ x ++ ")") with
+    | .error e => pure (w1, faultStr e)
+    | .ok (.error e) => pure (w1, "err " ++ e.name ++ " | " ++ w1.regStr dst ++ " | " ++ w1.regStr r)
+    | .ok (.ok m') =>
+      let w2 := w1.set dst (some m')
+      pure (w2, "ok | " ++ w2.regStr dst ++ " | " ++ w2.regStr r)
+  | ["map_ref", dst, r] => do
+    let dst ← dst.toNat?; let r ← r.toNat?
+    let m ← w.get r
+    let w1 := w
+    match m.map w.es (fun x => "g(" ++ x ++ ")") with
+    | .error e => pure (w1, faultStr e)
+    | .ok (.error e) => pure (w1, "err " ++ e.name ++ " | " ++ w1.regStr dst ++ " | " ++ w1.regStr r)
+    | .ok (.ok m') =>
+      let w2 := w1.set dst (some m')
+      pure (w2, "ok | " ++ w2.regStr dst ++ " | " ++ w2.regStr r)
+  | ["contains", r, payload] => do
+    let r ← r.toNat?
+    let m ← w.get r
+    pure (w, "ok " ++ toString (m.data.toList.contains payload))
   | ["clone", dst, a] => do
     let dst ← dst.toNat?; let a ← a.toNat?
     let m ← w.get a
